@@ -7,6 +7,9 @@ HERE = os.path.dirname(os.path.abspath(__file__))
 
 # property -> (technique, level text, level note)
 BUILT = {
+    'C02': ('exhaustive enumeration of operand values per opcode slot (all 256 byte values, all 65536 (d,n) pairs and words, all reachable jump targets) x base/case/format settings on the real assembler and disassembler',
+            'Direction 1: for every opcode slot and additional-opcode setting, every value of every byte operand, displacement and jump offset (complete), all 65536 (d,n) pairs of LD (IX/IY+d),n, all 65536 words for a representative of each word-operand decoder (thorough: all of them), relative jumps at every address within reach of either end of memory, the 64K edge with wrap on/off, in every base indicator (two-letter pairs for two-operand forms), either case, decimal or hex: the emitted statement assembles to exactly the bytes it was decoded from (variant-flagged statements: assemble and re-disassemble to the same text, the byte list being what reproduces them); DEFB/DEFM/DEFW/DEFS ranges for all byte values and boundary words. Direction 2: every mnemonic form x 40 operand spellings x 3 case variants: assemble -> disassemble -> assemble is the identity.',
+            "Base 'm' only where a signed operand is meaningful (non-zero immediates/displacements/addresses; not RST, IN A,(n), OUT (n),A, DEFS sizes). Word operands of non-representative slots use a 24-value boundary alphabet in the quick tier. Trusted: mc/refs/z80ref.py only to classify operand kinds and to supply mnemonic templates for direction 2."),
     'C05': ('exhaustive enumeration of finite flag/ALU tables and of a bounded state alphabet per opcode slot, on the real simulators against a reference model',
             'Every (A, operand, carry/F) entry of every 8-bit ALU/rotate/BIT/INC/DEC/DAA/NEG/CPL/SCF/CCF/RLD/RRD table, and every opcode slot x operand fillings x one-at-a-time boundary deviations of every register/pair/T/IFF/IM from 2 base states x PC/SP wrap points, executed on all four simulator implementations and compared (registers, masked F, PC, T, ports, whole memory) with an independent reference model.',
             'Trusted: mc/refs/z80ref.py (flags from arithmetic definitions, timing from machine cycles), CPython, gcc. Undocumented flag bits that depend on Q/MEMPTR or on a repeating block instruction are masked. Register values outside the boundary alphabets are not covered for 16-bit and memory-addressed forms.'),
@@ -19,6 +22,9 @@ BUILT = {
     'C08': ('inductive-step enumeration over a pointer-edge state alphabet with invariant monitors on the real simulators; TLC model checking of a TLA+ latch model with every edge of the dumped state graph replayed on every paging implementation; exhaustive two/three-write port histories',
             'A: every opcode slot (and interrupt acceptance) executed from every state of an alphabet that aims all pointers and the stack at the ROM/RAM and 64K edges, on all four simulators x {48K, 128K ROM 0, 128K ROM 1}, with monitors for ROM immutability, register and cell ranges and a monotone clock (inductive step). B: models/Paging128.tla (0x7FFD latch: decode, bank/ROM select, sticky lock) is model-checked by TLC and every edge of its state graph is replayed on 10 paging bindings (pagingtracer.PagingTracer both write_port variants with all four simulators, C internal paging without tracer, skoolmacro.PagingTracer/AudioTracer128 with skoolutils.Memory), source states reached three ways, driven by real OUT instructions and observed through simulated marker stores into every 16K region. C: all 256 x 256 two-write histories (thorough: on every binding and 4 port decodes, plus three-write histories over 64 value classes).',
             'Trusted: TLC, the TLA+ model as the statement of the documented latch, CPython, gcc. Part A is an inductive argument over the stated state alphabet (pointers exactly at the two edges); part C quick uses value classes on the secondary bindings.'),
+    'C09': ('exhaustive enumeration of RLE input strings and bounded state/option deviations through the real snapshot writers/readers and tools, against an independent format decoder',
+            'Z80 run-length coder exhaustively for every string over {ED,00,01} up to length 9 (thorough 10) in both block forms at method level and embedded in page-edge/long-run contexts through real v1/v2/v3/SZX files; ED runs of every length 1..600; runs around the 255 limit; register/hardware-state deviations d <= 2 on 48K/128K/+2 in both formats (thorough: every T-state value of both frame lengths); every single bin2sna/snapmod option and every ordered pair from the option alphabet. Oracles: read(write(x)) == x, Z80-written == SZX-written state, skoolkit reader == independent decoder written from the format specifications, changed set == reference model of the documented option semantics.',
+            'Trusted: mc/refs/snapfmt.py (independent Z80 v1-v3/SZX decoders incl. the published RLE coding rules), zlib. Option combinations whose order/precedence the documentation leaves open accept either result; ill-formed specs (moves/pokes past a bank or past 65535, 7ffd on 48K) are outside the generated space.'),
     'C10': ('crash-point style enumeration: every instruction boundary of every generated program is a save point, through the real tool, over configuration deviations',
             'For every program (prologue + each letter of a stateful alphabet + epilogue with IM 2 interrupt, HALT wait, prefix chain, LDIR, port writes, 128K paging/AY) and every split point n1 = 1..N-1, trace.main run for N instructions equals trace.main run for n1, snapshot, then N-n1 from the snapshot: all registers incl. R and MEMPTR (SZX), all RAM banks, border, fe, 7ffd, fffd, AY, iff, im, T mod frame. Configurations: deviations (d <= 1 quick, d <= 2 thorough) over {szx,z80} x {48K,128K} x {plain,--cmio} x {C,--python} x start T (frame-180, three frames later, frame-60, 2^24-170).',
             'Both legs start from the same initial SZX file (common mode). For .z80 mid files MEMPTR, the MEMPTR-derived F bits 3/5 under --cmio and the port-0xFE byte (no field in the format beyond the border colour) are exempt. Programs other than the generated ones are not covered.'),
